@@ -619,3 +619,74 @@ Proof.
     { intros j e He. unfold hgt. rewrite (cfind_app_some _ _ _ _ He), He. reflexivity. }
     destruct Ta as (e & He & _). destruct W as (_ & (hr & HR) & _). rewrite (Hh _ _ He), (Hh _ _ HR). exact Hn.
 Qed.
+
+(** ** the counting argument: in a quiet state the applied blocks are exactly root..tip *)
+Definition parent (l : list ent) (i : N) : N := match cfind l i with Some e => e_par e | None => i end.
+Fixpoint anc_list (l : list ent) (n : nat) (i : N) : list N :=
+  match n with
+  | O => [i]
+  | S m => i :: anc_list l m (parent l i)
+  end.
+Definition chain (s : cst) : list N :=
+  anc_list (cores s) (Z.to_nat (hgt (cores s) (tip _ _ s) - hgt (cores s) (root _ _ s))) (tip _ _ s).
+Definition act_ids (l : list ent) : list N := map e_id (filter e_act l).
+
+Lemma anc_list_length : forall l n i, length (anc_list l n i) = S n.
+Proof. induction n as [|n IH]; intros i; cbn; [reflexivity|]. rewrite IH. reflexivity. Qed.
+
+Lemma act_ids_in : forall l j, NoDup (map e_id l) -> (In j (act_ids l) <-> is_act l j).
+Proof.
+  intros l j ND. unfold act_ids, is_act. rewrite in_map_iff. split.
+  - intros (e & <- & Hin). apply filter_In in Hin. destruct Hin as [Hin Ha]. exists e. split; [apply cfind_in; assumption|exact Ha].
+  - intros (e & He & Ha). apply cfind_some in He. destruct He as [Hid Hin]. exists e. split; [exact Hid|]. apply filter_In. split; assumption.
+Qed.
+Lemma act_ids_nodup : forall l, NoDup (map e_id l) -> NoDup (act_ids l).
+Proof.
+  unfold act_ids. induction l as [|e r IH]; intros ND; cbn in *; [constructor|].
+  inversion ND as [|? ? Hn ND']; subst. destruct (e_act e); cbn; [|apply IH; exact ND'].
+  constructor; [|apply IH; exact ND']. intro Hin. apply Hn. apply in_map_iff in Hin. destruct Hin as (x & Hx & Hin).
+  apply filter_In in Hin. destruct Hin as [Hin _]. apply in_map_iff. exists x. split; assumption.
+Qed.
+
+(* all elements of the chain hanging below an applied block are applied, with heights decreasing by one *)
+Lemma anc_list_active : forall s n i,
+    wf s -> is_act (cores s) i -> Z.of_nat n <= hgt (cores s) i - hgt (cores s) (root _ _ s) ->
+    (forall j, In j (anc_list (cores s) n i) -> is_act (cores s) j /\ hgt (cores s) i - Z.of_nat n <= hgt (cores s) j <= hgt (cores s) i) /\
+    NoDup (anc_list (cores s) n i).
+Proof.
+  intros s n. induction n as [|n IH]; intros i W Ha Hn.
+  - split; [|constructor; [intros []|constructor]]. intros j [<-|[]]. split; [exact Ha|lia].
+  - assert (Hir : i <> root _ _ s) by (intro; subst i; lia).
+    destruct Ha as (e & He & Hact).
+    pose proof (wf_parent_height _ _ _ W He Hir) as Hh.
+    destruct W as (ND & HR & HP & HN). pose proof (cfind_some _ _ _ He) as [Hid Hin].
+    destruct (HP e Hin) as (pe & Hpe & _ & Hpa); [congruence|].
+    assert (Hp : parent (cores s) i = e_par e) by (unfold parent; rewrite He; reflexivity).
+    assert (Hpact : is_act (cores s) (e_par e)) by (exists pe; split; [exact Hpe|apply Hpa; exact Hact]).
+    destruct (IH (e_par e) (conj ND (conj HR (conj HP HN))) Hpact) as [A B]; [lia|].
+    cbn [anc_list]. rewrite Hp. split.
+    + intros j [<-|Hj]; [split; [exists e; split; assumption|lia]|].
+      destruct (A j Hj) as [A1 A2]. split; [exact A1|lia].
+    + constructor; [|exact B]. intro Hj. destruct (A i Hj) as [_ A2]. lia.
+Qed.
+
+Theorem applied_exactly : forall s, quiet s -> forall j, is_act (cores s) j <-> In j (chain s).
+Proof.
+  intros s (W & Ta & Hn) j. unfold chain.
+  set (n := Z.to_nat (hgt (cores s) (tip _ _ s) - hgt (cores s) (root _ _ s))).
+  assert (Hge : 0 <= hgt (cores s) (tip _ _ s) - hgt (cores s) (root _ _ s)).
+  { destruct W as (_ & (hr & HR) & _ & HN0). apply cfind_some in HR. destruct HR as [_ Hin].
+    assert (In (root pstate ccmd s, root pstate ccmd s, hr, true) (filter e_act (cores s))) by (apply filter_In; split; [exact Hin|reflexivity]).
+    assert (1 <= nact (cores s))%nat by (unfold nact; destruct (filter e_act (cores s)); [destruct H|cbn; lia]).
+    assert (1 <= Z.of_N (napp pstate ccmd s)) by (rewrite HN0, nat_N_Z; lia). lia. }
+  destruct (anc_list_active s n (tip _ _ s) W Ta) as [A B]; [unfold n; rewrite Z2Nat.id by lia; lia|].
+  pose proof W as (ND & _ & _ & HN).
+  split.
+  - intros Hj. apply (act_ids_in _ _ ND) in Hj.
+    refine (NoDup_length_incl B _ _ j Hj).
+    + rewrite anc_list_length. unfold act_ids. rewrite map_length. fold (nact (cores s)).
+      assert (Z.of_nat (nact (cores s)) = Z.of_nat (S n)); [|lia].
+      rewrite <- nat_N_Z, <- HN, Hn. unfold n. rewrite Nat2Z.inj_succ, Z2Nat.id by lia. lia.
+    + intros x Hx. apply (act_ids_in _ _ ND). apply A. exact Hx.
+  - intros Hj. apply A. exact Hj.
+Qed.
